@@ -115,6 +115,29 @@ def stepLine (d : D) (line : String) : D × String :=
   | "recheck" :: m :: f :: ps => let (tb, ps) := d.tab.interns ps; exec { d with tab := tb } (.recheck ps (parseMethod m) (b01 f))
   | "remove" :: a :: f :: ps => let (tb, ps) := d.tab.interns ps; exec { d with tab := tb } (.remove ps (b01 a) (b01 f))
   | "untrack" :: ps => let (tb, ps) := d.tab.interns ps; exec { d with tab := tb } (.untrack ps)
+  | "untrackr" :: nb :: rest =>
+    -- untrack --restore-versions; `nb` blocked copies follow as (path, version index) pairs, then the targets
+    match nb.toNat? with
+    | some nb =>
+      let bl := rest.take (2 * nb)
+      let (tb, ps) := d.tab.interns (rest.drop (2 * nb))
+      let rec pairs : List String → List (String × Nat)
+        | p :: k :: r => (p, k.toNat?.getD 0) :: pairs r
+        | _ => []
+      let (tb, blocked) := (pairs bl).foldl (fun (acc : Tab × List (Path × Addr)) (x : String × Nat) =>
+        let (t, p) := acc.1.intern x.1
+        match d.st.findEnt p with
+        | some e =>
+          match d.st.recs e with
+          | some r => (match r.digests[x.2]? with
+            | some dg => (t, acc.2 ++ [(r.path, addrOf r.path dg)])
+            | none => (t, acc.2))
+          | none => (t, acc.2)
+        | none => (t, acc.2)) (tb, [])
+      let ((s, o), w) := d.st.untrackRestore ps blocked
+      let ws := w.map (fun x => s!"{tb.path x.1}@{showDigest x.2.1.d}={fp x.2.2}")
+      ({ d with tab := tb, st := s }, s!"rc={showOut o} {showState tb s} restored=\{{";".intercalate (sortStrs ws)}}")
+    | none => (d, "bad-op")
   | ["copy", m, nr, f, a, b] =>
     let (tb, ps) := d.tab.interns [a, b]
     match ps with
